@@ -3,6 +3,7 @@ import os, re, subprocess
 import common
 
 LEAN_MODULES = ['OpusProps.C10']
+EXTENSIONS = ['C10msdec']   # extension slices merged into this property's check (tools/EXT_BRIEF.md)
 GEN = ['LayoutTables', 'MappingMatrices']
 SOURCES = ['src/opus_multistream.c', 'src/opus_multistream_decoder.c', 'src/opus_multistream_encoder.c',
            'src/opus_projection_encoder.c', 'src/opus_projection_decoder.c', 'src/mapping_matrix.c',
